@@ -177,35 +177,40 @@ def wordsVal : List Nat → Nat
   | [] => 0
   | w :: rest => w * 2 ^ (16 * rest.length) + wordsVal rest
 
+/-- the leading-colon check of `inet_pton6`: where the main loop starts -/
+def pton6Start (s : Str) : Option Str :=
+  match s with
+  | ':' :: t => (match t with | ':' :: _ => some t | _ => none)
+  | _ => some s
+
+/-- what `inet_pton6` does after the loop: store a pending group, expand `::`, check the length -/
+def pton6Finish (st : P6) : Option Nat :=
+  let ws? : Option (List Nat) :=
+    if st.seen > 0 then (if st.ws.length + 1 > 8 then none else some (st.ws ++ [st.val]))
+    else some st.ws
+  match ws? with
+  | none => none
+  | some ws =>
+    let ws2? : Option (List Nat) :=
+      match st.colonp with
+      | some c =>
+        if ws.length == 8 then none
+        else some (ws.take c ++ List.replicate (8 - ws.length) 0 ++ ws.drop c)
+      | none => some ws
+    match ws2? with
+    | none => none
+    | some ws2 => if ws2.length == 8 then some (wordsVal ws2) else none
+
 def pton6 (s : Str) : Option Nat :=
   match s with
   | [] => none
   | _ =>
-    let start : Option Str :=
-      match s with
-      | ':' :: t => (match t with | ':' :: _ => some t | _ => none)
-      | _ => some s
-    match start with
+    match pton6Start s with
     | none => none
     | some src =>
       match pton6Loop src { curtok := src } with
       | none => none
-      | some st =>
-        let ws? : Option (List Nat) :=
-          if st.seen > 0 then (if st.ws.length + 1 > 8 then none else some (st.ws ++ [st.val]))
-          else some st.ws
-        match ws? with
-        | none => none
-        | some ws =>
-          let ws2? : Option (List Nat) :=
-            match st.colonp with
-            | some c =>
-              if ws.length == 8 then none
-              else some (ws.take c ++ List.replicate (8 - ws.length) 0 ++ ws.drop c)
-            | none => some ws
-          match ws2? with
-          | none => none
-          | some ws2 => if ws2.length == 8 then some (wordsVal ws2) else none
+      | some st => pton6Finish st
 
 /-! ### printing -/
 
